@@ -2,7 +2,7 @@
 # usage: tools/confirm_seed.sh <Cxx> <k> [<n>]  (stored as seeded/<Cxx>-<n>)   -- confirm an independently produced breaking change
 # in its scratch worktree /tmp/wt/<Cxx>: patch applies; demo passes pristine / fails patched;
 # test suite at baseline (468 passed, 25 errors) with the patch. On success copy to /verif/seeded/.
-p=$1; k=$2; n=${3:-$2}; wt=${WT:-/tmp/wt}/$p; sd=$wt/seed$k
+p=$1; k=$2; n=${3:-$2}; wt=${WTD:-${WT:-/tmp/wt}/$p}; sd=$wt/seed$k
 cd $wt || exit 9
 git checkout -q -- . 
 /venv/bin/python seed$k/demo.py >/tmp/seedlog.$p.$k.pristine 2>&1; r0=$?
